@@ -274,9 +274,10 @@ INVARIANT Emit
 """
 PREFIXES = {
     'quick': [('empty', '<- P_empty', 3), ('names', '<- P_names', 3), ('git', '<- P_git', 3), ('in-hunk', '<- P_in_hunk', 3),
-              ('after-create-hunk', '<- P_after_create', 3)],
+              ('after-create-hunk', '<- P_after_create', 3), ('miscount-add', '<- P_miscount_add', 2), ('miscount-del', '<- P_miscount_del', 2)],
     'thorough': [('empty', '<- P_empty', 4), ('names', '<- P_names', 4), ('git', '<- P_git', 4), ('git-index', '<- P_git_index', 3),
-                 ('in-hunk', '<- P_in_hunk', 4), ('after-hunk', '<- P_after_hunk', 3), ('after-create-hunk', '<- P_after_create', 4)],
+                 ('in-hunk', '<- P_in_hunk', 4), ('after-hunk', '<- P_after_hunk', 3), ('after-create-hunk', '<- P_after_create', 4),
+                 ('miscount-add', '<- P_miscount_add', 3), ('miscount-del', '<- P_miscount_del', 3)],
 }
 NUMS = [0, 1, 2, 10 ** 9, 2 ** 31, 2 ** 32, 2 ** 63 - 1, 2 ** 63, 2 ** 64 - 1, 2 ** 64, 10 ** 30]
 MEM_SLACK = 1 << 20
